@@ -25,6 +25,7 @@ const (
 	RetVal                    // func(...) T                     -> T
 	RetVoid                   // func(w, ...)  (writer function without result)      -> W
 	RetHandler                // func(...) http.HandlerFunc { ...; return func(w, r) {...} }   -> W
+	RetWrites                 // func(w, r, ...) (http handler)  -> List Write (the responses written, in order)
 )
 
 // OutParam: the Go callee writes through a pointer argument; its Lean twin returns the new value.
@@ -41,6 +42,7 @@ var outParams = map[string]OutParam{
 	"ValidateRefreshTokenScopes":     {1, true},
 	"CopyRequestObjectToAuthRequest": {0, true},
 	"c.securecookie.Decode":          {2, false},
+	"ParseRequestObject":             {1, true},
 }
 
 type FuncSpec struct {
@@ -54,6 +56,7 @@ type FuncSpec struct {
 	NilValue  []string          // identifiers that denote "the zero value" in `return zero, err`
 	WrapOk    string            // RetValErr: constructor applied to the value of `return v, nil`
 	WrapBoth  string            // RetValErr: constructor applied to (v, err) of `return v, err` with non-zero v
+	LetIf     bool              // style: `if C { v.F = e }` -> `let v := if C then {v with F := e} else v` (instead of duplicating the continuation)
 	ValueOnly bool              // the theorems concern the returned VALUE only: append to a caller's slice is read functionally (aliasing is C20's subject)
 	RetParam  string            // RetErr function that mutates this pointer parameter: `return nil` yields its final value
 	// Writer: name of the http.ResponseWriter parameter. The Lean twin threads it as a value (an effect log):
@@ -64,14 +67,16 @@ type FuncSpec struct {
 }
 
 type tr struct {
-	spec       *FuncSpec
-	fset       *token.FileSet
-	unsup      []string
-	indent     int
-	errInScope bool            // inside a `.error err =>` branch
-	fresh      map[string]bool // slice variables known to own their backing array (make / literal)
-	inClosure  bool            // RetHandler: inside the returned handler closure
-	declared   map[string]bool // variables declared in the function (closure) being translated: `=` to anything else is shared state
+	spec        *FuncSpec
+	fset        *token.FileSet
+	unsup       []string
+	indent      int
+	errInScope  bool            // inside a `.error err =>` branch
+	fresh       map[string]bool // slice variables known to own their backing array (make / literal)
+	inClosure   bool            // RetHandler: inside the returned handler closure
+	declared    map[string]bool // variables declared in the function (closure) being translated: `=` to anything else is shared state
+	pendingPost string          // write-back of a field out-parameter (see okPattern)
+	loopDepth   int             // inside the body of a generically translated range loop (returns become `some …`)
 }
 
 func (t *tr) declareFields(fl *ast.FieldList) {
@@ -106,7 +111,8 @@ func ignorableCall(c *ast.CallExpr) bool {
 	switch {
 	case strings.HasSuffix(s, "Tracer.Start"), strings.HasSuffix(s, "tracer.Start"), s == "span.End", strings.HasPrefix(s, "logger."),
 		strings.HasSuffix(s, ".Debug"), strings.HasSuffix(s, ".Info"), strings.HasSuffix(s, ".Error") && strings.Contains(s, "ogger"),
-		s == "span.RecordError", s == "span.SetStatus":
+		s == "span.RecordError", s == "span.SetStatus",
+		strings.Contains(s, "Logger()."), s == "r.WithContext":
 		return true
 	}
 	return false
@@ -186,6 +192,102 @@ var typeMap = map[string]string{
 // named function / slice types whose conversion T(x) is the identity in the model
 var identityConversions = map[string]bool{
 	"AuthURLOpt": true, "CodeExchangeOpt": true, "URLParamOpt": true,
+}
+
+// zero values of `var x T` declarations
+var zeroValues = map[string]string{
+	"string": "(\"\" : String)", "bool": "false", "int": "(0 : Int)",
+	"oidc.ResponseMode": "(\"\" : String)", "oidc.ResponseType": "(\"\" : String)",
+}
+
+// names of all translated functions (filled by main from the whitelist): a `return f(...)` in a
+// function returning only `error` is a tail call when f is one of them
+var translatedFuncs = map[string]bool{}
+
+// errChain: `oidc.ErrX().WithDescription(..).WithParent(..)` -> "ErrX" ("" if e is not such a chain)
+func errChain(e ast.Expr) string {
+	cur := e
+	for {
+		c, ok := cur.(*ast.CallExpr)
+		if !ok {
+			return ""
+		}
+		switch f := c.Fun.(type) {
+		case *ast.Ident:
+			if isErrCtor(f.Name) {
+				return f.Name
+			}
+			return ""
+		case *ast.SelectorExpr:
+			if isErrCtor(f.Sel.Name) {
+				return f.Sel.Name
+			}
+			if strings.HasPrefix(f.Sel.Name, "With") {
+				cur = f.X
+				continue
+			}
+			return ""
+		default:
+			return ""
+		}
+	}
+}
+
+// ErrXyz (not `Error`)
+func isErrCtor(n string) bool {
+	return strings.HasPrefix(n, "Err") && len(n) > 3 && n[3] >= 'A' && n[3] <= 'Z'
+}
+
+// bindTarget: binder and write-back for an assignment target (`x` or the field `a.F`)
+func (t *tr) bindTarget(e ast.Expr) (binder, post string) {
+	if sel, ok := e.(*ast.SelectorExpr); ok {
+		if id, ok := sel.X.(*ast.Ident); ok {
+			a := t.ident(id.Name)
+			b := "v_" + id.Name + "_" + sel.Sel.Name
+			return b, "let " + a + " := ({ " + a + " with " + sel.Sel.Name + " := " + b + " } : type_of% " + a + ");\n" + t.pad()
+		}
+		return t.bad("assignment target", e), ""
+	}
+	v := exprString(e)
+	if v == "_" {
+		return "_", ""
+	}
+	return t.ident(v), ""
+}
+
+func hasArgW(c *ast.CallExpr) bool {
+	for _, a := range c.Args {
+		if id, ok := a.(*ast.Ident); ok && (id.Name == "w" || id.Name == "res") {
+			return true
+		}
+	}
+	return false
+}
+
+// writeCall: a call that writes to the http.ResponseWriter `w` (handler mode): `w` and `r` are dropped
+func (t *tr) writeCall(c *ast.CallExpr) string {
+	full := exprString(c.Fun)
+	var as []string
+	for _, a := range c.Args {
+		if id, ok := a.(*ast.Ident); ok && (id.Name == "w" || id.Name == "r" || id.Name == "res") {
+			continue
+		}
+		if isCtxArg(a) {
+			continue
+		}
+		as = append(as, t.expr(a))
+	}
+	args := strings.Join(as, " ")
+	if r, ok := t.spec.Rename[full+"()"]; ok {
+		return "(" + r + " " + args + ")"
+	}
+	if r, ok := pkgMap[full]; ok {
+		return "(" + r + " " + args + ")"
+	}
+	if id, ok := c.Fun.(*ast.Ident); ok {
+		return "(" + id.Name + " now " + args + ")"
+	}
+	return t.bad("write call "+full, c)
 }
 
 func (t *tr) ident(name string) string {
@@ -373,10 +475,21 @@ func (t *tr) okPattern(call ast.Expr, v string) string {
 		return v
 	}
 	name := strings.TrimPrefix(exprString(c.Args[op.Index]), "&")
+	if strings.Contains(name, ".") {
+		// the out-parameter is a field (`r.Data`): bind a fresh name, write it back before the continuation
+		name, t.pendingPost = t.bindTarget(c.Args[op.Index])
+	}
 	if v == "_" || v == "" {
 		return name
 	}
 	return "(" + v + ", " + name + ")"
+}
+
+// takePost returns (and clears) the write-back recorded by the last okPattern
+func (t *tr) takePost() string {
+	p := t.pendingPost
+	t.pendingPost = ""
+	return p
 }
 
 func (t *tr) args(as []ast.Expr) string {
@@ -399,6 +512,9 @@ func (t *tr) argsOf(callee string, as []ast.Expr) string {
 }
 
 func (t *tr) call(c *ast.CallExpr) string {
+	if n := errChain(c); n != "" {
+		return leanStr(n)
+	}
 	fun := c.Fun
 	if ix, ok := fun.(*ast.IndexExpr); ok { // generic instantiation
 		fun = ix.X
@@ -636,6 +752,9 @@ func (t *tr) zeroBind(body ast.Node, v string) string {
 }
 
 func (t *tr) ret(r *ast.ReturnStmt) string {
+	if t.loopDepth > 0 {
+		return "(some " + t.ret0(r) + ")"
+	}
 	if t.spec.Writer != "" {
 		switch t.spec.Ret {
 		case RetVoid, RetHandler:
@@ -670,6 +789,11 @@ func (t *tr) ret0(r *ast.ReturnStmt) string {
 		return t.spec.RetParam
 	}
 	switch t.spec.Ret {
+	case RetWrites:
+		if len(r.Results) != 0 {
+			return t.bad("return with values in a handler", r)
+		}
+		return "[]"
 	case RetErr:
 		if len(r.Results) != 1 {
 			return t.bad("return arity", r)
@@ -679,6 +803,16 @@ func (t *tr) ret0(r *ast.ReturnStmt) string {
 				return "(.ok " + t.spec.RetParam + ")"
 			}
 			return "Go.ok"
+		}
+		// return f(...) where f is itself a translated function returning `error`: tail call
+		if c, ok := r.Results[0].(*ast.CallExpr); ok && errChain(c) == "" {
+			name := exprString(c.Fun)
+			if i := strings.LastIndex(name, "."); i >= 0 {
+				name = name[i+1:]
+			}
+			if translatedFuncs[name] && t.spec.RetParam == "" {
+				return t.expr(c)
+			}
 		}
 		return "(.error " + t.errValue(r.Results[0]) + ")"
 	case RetValErr:
@@ -727,12 +861,42 @@ func (t *tr) ret0(r *ast.ReturnStmt) string {
 		}
 		return t.bad("return of value and error", r)
 	case RetVal:
+		if len(r.Results) > 1 {
+			// (v1, ..., vn) without error: a tuple
+			var vs []string
+			for _, v := range r.Results {
+				vs = append(vs, t.expr(v))
+			}
+			return "(" + strings.Join(vs, ", ") + ")"
+		}
 		if len(r.Results) != 1 {
 			return t.bad("return arity", r)
 		}
 		return t.expr(r.Results[0])
 	}
 	return t.bad("return", r)
+}
+
+func isErrIsNil(e ast.Expr) bool {
+	b, ok := e.(*ast.BinaryExpr)
+	if !ok || b.Op != token.EQL {
+		return false
+	}
+	l, ok1 := b.X.(*ast.Ident)
+	r, ok2 := b.Y.(*ast.Ident)
+	return ok1 && ok2 && l.Name == "err" && r.Name == "nil"
+}
+
+// typeAssertName: the flag name of `x.(T)`: T without package, or has_<Method> for an anonymous interface
+func typeAssertName(e ast.Expr) string {
+	if it, ok := e.(*ast.InterfaceType); ok && it.Methods != nil && len(it.Methods.List) > 0 && len(it.Methods.List[0].Names) > 0 {
+		return "has_" + it.Methods.List[0].Names[0].Name
+	}
+	tn := exprString(e)
+	if i := strings.LastIndex(tn, "."); i >= 0 {
+		tn = tn[i+1:]
+	}
+	return tn
 }
 
 func isErrNotNil(e ast.Expr) bool {
@@ -800,6 +964,9 @@ func (t *tr) block(stmts []ast.Stmt, k cont) string {
 				case "bool":
 					zero = "false"
 				}
+				if z, ok := zeroValues[exprString(vs.Type)]; ok && zero == "" {
+					zero = z
+				}
 				if zero == "" {
 					continue
 				}
@@ -828,6 +995,10 @@ func (t *tr) block(stmts []ast.Stmt, k cont) string {
 			if t.isWriterCall(c) {
 				return "let " + t.spec.Writer + " := " + t.expr(c) + ";\n" + t.pad() + rest()
 			}
+			// handler mode: a call that writes to the ResponseWriter; the handler goes on afterwards
+			if t.spec.Ret == RetWrites && hasArgW(c) {
+				return "(" + t.writeCall(c) + " ++\n" + t.pad() + rest() + ")"
+			}
 			// mutator method on a model value: recv.SetX(a)  ->  let recv := recv.SetX a
 			if sel, ok := c.Fun.(*ast.SelectorExpr); ok && strings.HasPrefix(sel.Sel.Name, "Set") {
 				if id, ok := sel.X.(*ast.Ident); ok {
@@ -851,13 +1022,15 @@ func (t *tr) block(stmts []ast.Stmt, k cont) string {
 		// x, ok := e.(T)   type assertion: the model value carries a flag `is_T`
 		if len(x.Lhs) == 2 && len(x.Rhs) == 1 {
 			if ta, ok := x.Rhs[0].(*ast.TypeAssertExpr); ok && ta.Type != nil {
-				tn := exprString(ta.Type)
-				if i := strings.LastIndex(tn, "."); i >= 0 {
-					tn = tn[i+1:]
-				}
+				tn := typeAssertName(ta.Type)
 				v, okv := exprString(x.Lhs[0]), exprString(x.Lhs[1])
 				e := t.expr(ta.X)
 				return "let " + v + " := " + e + ";\n" + t.pad() + "let " + okv + " := (" + e + ").is_" + tn + ";\n" + t.pad() + rest()
+			}
+			// a, b := f(...)   two plain results (no error): tuple destructuring
+			if call, ok := x.Rhs[0].(*ast.CallExpr); ok && !ignorableCall(call) && exprString(x.Lhs[1]) != "err" {
+				a, b := t.ident(exprString(x.Lhs[0])), t.ident(exprString(x.Lhs[1]))
+				return "let (" + a + ", " + b + ") := " + t.expr(call) + ";\n" + t.pad() + rest()
 			}
 		}
 		// a, b, err := f(...)   followed by   if err != nil { ... }
@@ -896,12 +1069,7 @@ func (t *tr) block(stmts []ast.Stmt, k cont) string {
 			}
 			if ok && len(stmts) > 1 {
 				if ifs, ok := stmts[1].(*ast.IfStmt); ok && ifs.Init == nil && isErrNotNil(ifs.Cond) && ifs.Else == nil {
-					v := exprString(x.Lhs[0])
-					if v == "_" {
-						v = "_"
-					} else {
-						v = t.ident(v)
-					}
+					v, post := t.bindTarget(x.Lhs[0])
 					cont := memo(func() string { return t.block(stmts[2:], k) })
 					t.indent++
 					saved := t.errInScope
@@ -910,7 +1078,7 @@ func (t *tr) block(stmts []ast.Stmt, k cont) string {
 					t.errInScope = saved
 					zb := t.zeroBind(ifs.Body, exprString(x.Lhs[0]))
 					t.indent--
-					return "(match " + t.expr(call) + " with\n" + t.pad() + "| " + t.wpat(call, ".error err") + " => " + zb + errBranch + "\n" + t.pad() + "| " + t.wpat(call, ".ok "+t.okPattern(call, v)) + " =>\n" + t.pad() + cont() + ")"
+					return "(match " + t.expr(call) + " with\n" + t.pad() + "| " + t.wpat(call, ".error err") + " => " + zb + errBranch + "\n" + t.pad() + "| " + t.wpat(call, ".ok "+t.okPattern(call, v)) + " =>\n" + t.pad() + post + t.takePost() + cont() + ")"
 				}
 			}
 			return t.bad("two-value assignment without error check", x)
@@ -930,7 +1098,11 @@ func (t *tr) block(stmts []ast.Stmt, k cont) string {
 				errBranch := t.block(ifs.Body.List, cont)
 				t.errInScope = saved
 				t.indent--
-				return "(match " + t.expr(x.Rhs[0]) + " with\n" + t.pad() + "| " + t.wpat(x.Rhs[0], ".error err") + " => " + errBranch + "\n" + t.pad() + "| " + t.wpat(x.Rhs[0], ".ok "+t.okPattern(x.Rhs[0], "_")) + " =>\n" + t.pad() + cont() + ")"
+				// handler mode: err := F(w, ...) writes a response (on success) or reports an error
+				if wc, ok := x.Rhs[0].(*ast.CallExpr); ok && t.spec.Ret == RetWrites && hasArgW(wc) {
+					return "(match " + t.writeCall(wc) + " with\n" + t.pad() + "| .error err => " + errBranch + "\n" + t.pad() + "| .ok ws_ =>\n" + t.pad() + "(ws_ ++ " + cont() + "))"
+				}
+				return "(match " + t.expr(x.Rhs[0]) + " with\n" + t.pad() + "| " + t.wpat(x.Rhs[0], ".error err") + " => " + errBranch + "\n" + t.pad() + "| " + t.wpat(x.Rhs[0], ".ok "+t.okPattern(x.Rhs[0], "_")) + " =>\n" + t.pad() + t.takePost() + cont() + ")"
 			}
 		}
 		// x := make([]T, len(xs)); for i, p := range xs { x[i] = T(p) }     ->  let x := Go.mapList xs (fun p => p)
@@ -963,7 +1135,7 @@ func (t *tr) block(stmts []ast.Stmt, k cont) string {
 		}
 		if len(x.Lhs) == 1 && len(x.Rhs) == 1 {
 			// v.F = e   ->   let v := { v with F := e }
-			if sel, ok := x.Lhs[0].(*ast.SelectorExpr); ok {
+			if sel, ok := x.Lhs[0].(*ast.SelectorExpr); ok && t.spec.LetIf {
 				if id, ok := sel.X.(*ast.Ident); ok {
 					v := t.ident(id.Name)
 					return "let " + v + " := { " + v + " with " + sel.Sel.Name + " := " + t.expr(x.Rhs[0]) + " };\n" + t.pad() + rest()
@@ -981,12 +1153,20 @@ func (t *tr) block(stmts []ast.Stmt, k cont) string {
 				}
 				return t.bad("make", x)
 			}
+			if c, ok := x.Rhs[0].(*ast.CallExpr); ok && ignorableCall(c) {
+				return rest() // bookkeeping (logger = logger.With(..), r = r.WithContext(ctx))
+			}
+			if _, ok := x.Lhs[0].(*ast.SelectorExpr); ok {
+				// a.F = e   ->   let a := { a with F := e }
+				b, post := t.bindTarget(x.Lhs[0])
+				return "let " + b + " := " + t.expr(x.Rhs[0]) + ";\n" + t.pad() + post + rest()
+			}
 			return "let " + t.ident(exprString(x.Lhs[0])) + " := " + t.expr(x.Rhs[0]) + ";\n" + t.pad() + rest()
 		}
 		return t.bad("assignment", x)
 	case *ast.IfStmt:
 		// if C { v.F = e; ... }   (no else, only assignments to one variable)  ->  let v := if C then {v with ...} else v
-		if x.Init == nil && x.Else == nil {
+		if x.Init == nil && x.Else == nil && t.spec.LetIf {
 			if v, upd, ok := t.assignOnly(x.Body.List); ok {
 				return "let " + v + " := (if " + t.expr(x.Cond) + " then " + upd + " else " + v + ");\n" + t.pad() + rest()
 			}
@@ -1009,7 +1189,7 @@ func (t *tr) block(stmts []ast.Stmt, k cont) string {
 					okBranch = t.elseBranch(x.Else, cont)
 				}
 				t.indent--
-				return "(match " + t.expr(as.Rhs[0]) + " with\n" + t.pad() + "| " + t.wpat(as.Rhs[0], ".error err") + " => " + errBranch + "\n" + t.pad() + "| " + t.wpat(as.Rhs[0], ".ok "+t.okPattern(as.Rhs[0], "_")) + " =>\n" + t.pad() + okBranch + ")"
+				return "(match " + t.expr(as.Rhs[0]) + " with\n" + t.pad() + "| " + t.wpat(as.Rhs[0], ".error err") + " => " + errBranch + "\n" + t.pad() + "| " + t.wpat(as.Rhs[0], ".ok "+t.okPattern(as.Rhs[0], "_")) + " =>\n" + t.pad() + t.takePost() + okBranch + ")"
 			}
 			// if v := e; cond(v) { body }      (v is scoped to the if statement)
 			if ok && len(as.Lhs) == 1 && len(as.Rhs) == 1 && as.Tok == token.DEFINE && exprString(as.Lhs[0]) != "err" && x.Else == nil && !t.isWriterCall(as.Rhs[0]) {
@@ -1019,6 +1199,33 @@ func (t *tr) block(stmts []ast.Stmt, k cont) string {
 					thenB := t.block(x.Body.List, cont)
 					t.indent--
 					return "(if (" + bind + t.expr(x.Cond) + ") then\n" + t.pad() + "  " + bind + thenB + "\n" + t.pad() + "else\n" + t.pad() + cont() + ")"
+				}
+			}
+			// if err := f(...); err == nil { body }   (the success branch is the guarded one)
+			if ok && len(as.Lhs) == 1 && exprString(as.Lhs[0]) == "err" && isErrIsNil(x.Cond) && x.Else == nil {
+				t.indent++
+				okBranch := t.block(x.Body.List, cont)
+				saved := t.errInScope
+				t.errInScope = true
+				errBranch := cont()
+				t.errInScope = saved
+				t.indent--
+				return "(match " + t.expr(as.Rhs[0]) + " with\n" + t.pad() + "| .ok " + t.okPattern(as.Rhs[0], "_") + " =>\n" + t.pad() + t.takePost() + okBranch + "\n" + t.pad() + "| .error err =>\n" + t.pad() + errBranch + ")"
+			}
+			// if v, ok := e.(T); ok { body }
+			if ok && len(as.Lhs) == 2 && len(as.Rhs) == 1 && x.Else == nil && exprString(x.Cond) == exprString(as.Lhs[1]) {
+				if ta, isTA := as.Rhs[0].(*ast.TypeAssertExpr); isTA && ta.Type != nil {
+					v, okv := exprString(as.Lhs[0]), exprString(as.Lhs[1])
+					e := t.expr(ta.X)
+					t.indent++
+					thenB := t.block(x.Body.List, cont)
+					t.indent--
+					elseB := cont()
+					if thenB == elseB { // the guarded statements carry no decision (logging)
+						return elseB
+					}
+					return "let " + v + " := " + e + ";\n" + t.pad() + "let " + okv + " := (" + e + ").is_" + typeAssertName(ta.Type) + ";\n" + t.pad() +
+						"(if " + okv + " then\n" + t.pad() + "  " + thenB + "\n" + t.pad() + "else\n" + t.pad() + elseB + ")"
 				}
 			}
 			return t.bad("if with init", x)
@@ -1044,6 +1251,17 @@ func (t *tr) block(stmts []ast.Stmt, k cont) string {
 					return "(if (Go.any " + t.expr(x.X) + " (fun " + v + " => " + t.expr(ifs.Cond) + ")) then\n" + t.pad() + "  " + t.ret(ret) + "\n" + t.pad() + "else\n" + t.pad() + rest() + ")"
 				}
 			}
+		}
+		// general form: for _, v := range L { BODY }  where BODY only returns or falls through:
+		//   match Go.forRange L (fun v => BODY') with | some r => r | none => rest      (BODY' : Option result)
+		if x.Value != nil && x.Tok == token.DEFINE && (x.Key == nil || exprString(x.Key) == "_") {
+			v := exprString(x.Value)
+			t.loopDepth++
+			t.indent++
+			body := t.block(x.Body.List, func() string { return "none" })
+			t.indent--
+			t.loopDepth--
+			return "(match (Go.forRange " + t.expr(x.X) + " (fun " + v + " =>\n" + t.pad() + "  " + body + ")) with\n" + t.pad() + "| some r_ => r_\n" + t.pad() + "| none =>\n" + t.pad() + rest() + ")"
 		}
 		return t.bad("range loop", x)
 	}
@@ -1171,9 +1389,14 @@ func translateFunc(fset *token.FileSet, fd *ast.FuncDecl, spec *FuncSpec) (strin
 		w := spec.Writer
 		k = func() string { return w } // a void writer function may fall off its end
 	}
+	if spec.Ret == RetWrites {
+		k = func() string { return "[]" } // a handler may fall off its end
+	}
 	body := t.block(fd.Body.List, k)
 	var rt string
 	switch spec.Ret {
+	case RetWrites:
+		rt = "List Write"
 	case RetErr:
 		rt = "Go.R Unit"
 		if spec.RetParam != "" {
